@@ -79,60 +79,73 @@ fn self_validate() -> Result<(), String> {
 
 // ---------------------------------------------------------------- cases
 
-fn gmap_case(kind: &str, container: &str, h: &[u8], cont: usize) -> Value {
-    json!({"kind": kind, "container": container, "h": h, "cont": cont,
-           "text": format!("{} (L/G k=v: local/global insert, {{ begin_group, }} end_group)", gmap::render(h)),
-           "test_body": "let mut m = GroupingHashMap::default() /* or GroupingVec */; apply the operations of `text` in order; compare get/len/iter, and for cont > 0 rebuild with m.iter_all().collect() and apply every continuation of that length"})
+/// 0: two keys {0,1}; 1: three keys {0,2,5}; 2+i: two keys, container created by from_iter(INITS[i]).
+fn alpha_of(id: u64) -> gmap::Alpha {
+    match id {
+        0 => gmap::A2,
+        1 => gmap::A3,
+        i => gmap::Alpha { init: gmap::INITS[(i as usize - 2) % gmap::INITS.len()], ..gmap::A2 },
+    }
+}
+
+fn gmap_case(kind: &str, container: &str, alpha: u64, h: &[u8], cont: usize) -> Value {
+    json!({"kind": kind, "container": container, "alpha": alpha, "h": h, "cont": cont,
+           "text": format!("{} (L/G k=v: local/global insert - a local insert at an odd position goes through extend(), {{ begin_group, }} end_group)", gmap::render(h, &alpha_of(alpha))),
+           "test_body": "let mut m = GroupingHashMap::default() /* or GroupingVec; or the from_iter shown */; apply the operations of `text` in order; compare get/len/iter, and for cont > 0 rebuild with m.iter_all().collect() and apply every continuation of that length"})
 }
 
 /// One history: step-by-step comparison, drain, replay law at the state reached.
-fn run_gmap(container: &str, idx: u64, h: &[u8], acc: &mut Acc) -> Option<gmap::Fp> {
+fn run_gmap(container: &str, alpha: u64, idx: u64, h: &[u8], acc: &mut Acc) -> Option<gmap::Fp> {
     acc.eval();
-    let case = || gmap_case("gmap", container, h, 0);
+    let al = alpha_of(alpha);
+    let case = || gmap_case("gmap", container, alpha, h, 0);
     if container == "hash" {
-        judge(idx, acc, &case, &|acc: &mut Acc| gmap::check_history::<HashMap<usize, u8>>(h, acc))
+        judge(idx, acc, &case, &|acc: &mut Acc| gmap::check_history::<HashMap<usize, u8>>(h, &al, acc))
     } else {
-        judge(idx, acc, &case, &|acc: &mut Acc| gmap::check_history::<Vec<Option<u8>>>(h, acc))
+        judge(idx, acc, &case, &|acc: &mut Acc| gmap::check_history::<Vec<Option<u8>>>(h, &al, acc))
     }
 }
 
 /// One state (given by a history that reaches it): the rebuilt container under every continuation.
-fn run_gmap_cont(container: &str, idx: u64, h: &[u8], cont: usize, acc: &mut Acc) {
+fn run_gmap_cont(container: &str, alpha: u64, idx: u64, h: &[u8], cont: usize, acc: &mut Acc) {
     acc.eval();
     acc.nontrivial();
-    let case = || gmap_case("gmap-cont", container, h, cont);
+    let al = alpha_of(alpha);
+    let case = || gmap_case("gmap-cont", container, alpha, h, cont);
     if container == "hash" {
-        judge(idx, acc, &case, &|acc: &mut Acc| gmap::check_continuations::<HashMap<usize, u8>>(h, cont, acc));
+        judge(idx, acc, &case, &|acc: &mut Acc| gmap::check_continuations::<HashMap<usize, u8>>(h, &al, cont, acc));
     } else {
-        judge(idx, acc, &case, &|acc: &mut Acc| gmap::check_continuations::<Vec<Option<u8>>>(h, cont, acc));
+        judge(idx, acc, &case, &|acc: &mut Acc| gmap::check_continuations::<Vec<Option<u8>>>(h, &al, cont, acc));
     }
 }
 
-/// All variants (hasher x serde position) of one interner history. Returns the number of executions.
-fn run_interner(idx: u64, ops: &[u64], only: Option<(bool, Option<usize>)>, acc: &mut Acc) {
-    let mut variants: Vec<(bool, Option<usize>)> = vec![];
+/// All variants (hasher x serde position x serde route) of one interner history over string set `set`.
+fn run_interner(idx: u64, set: u64, ops: &[u64], only: Option<(bool, Option<usize>, bool)>, acc: &mut Acc) {
+    let strs = intern::SETS[set as usize % 2];
+    let mut variants: Vec<(bool, Option<usize>, bool)> = vec![];
     for constant in [false, true] {
-        variants.push((constant, None));
+        variants.push((constant, None, false));
         for p in 0..=ops.len() {
-            variants.push((constant, Some(p)));
+            variants.push((constant, Some(p), false));
+            variants.push((constant, Some(p), true));
         }
     }
     if intern::nontrivial(ops) {
         acc.nontrivial();
     }
-    for (vi, (constant, serde_at)) in variants.into_iter().enumerate() {
+    for (vi, (constant, serde_at, via_value)) in variants.into_iter().enumerate() {
         if let Some(o) = only {
-            if o != (constant, serde_at) {
+            if o != (constant, serde_at, via_value) {
                 continue;
             }
         }
         acc.eval();
         acc.traces_validated += 1;
-        let case = || json!({"kind": "interner", "ops": ops, "constant_hasher": constant, "serde_at": serde_at, "text": intern::render(ops)});
+        let case = || json!({"kind": "interner", "set": set, "ops": ops, "constant_hasher": constant, "serde_at": serde_at, "serde_via_value": via_value, "text": intern::render(ops, strs)});
         let r: Option<()> = if constant {
-            judge(idx * 16 + vi as u64, acc, &case, &|acc: &mut Acc| intern::check::<intern::ConstBuild>(ops, serde_at, true, acc))
+            judge(idx * 32 + vi as u64, acc, &case, &|acc: &mut Acc| intern::check::<intern::ConstBuild>(ops, strs, serde_at, via_value, true, acc))
         } else {
-            judge(idx * 16 + vi as u64, acc, &case, &|acc: &mut Acc| intern::check::<intern::RandomBuild>(ops, serde_at, false, acc))
+            judge(idx * 32 + vi as u64, acc, &case, &|acc: &mut Acc| intern::check::<intern::RandomBuild>(ops, strs, serde_at, via_value, false, acc))
         };
         if r.is_some() {
             acc.class(&format!("interner ok: {} distinct strings, {} hasher, serde {}", distinct_interned(ops), if constant { "constant" } else { "random" }, if serde_at.is_some() { "yes" } else { "no" }));
@@ -172,7 +185,7 @@ fn run_nevec(_idx: u64, ctor: u64, ops: &[u64], acc: &mut Acc) {
 fn kmp_family(ctx: &mut Ctx, name: &str, k: u64, maxpat: u32, maxtext: u32) {
     let npat = vcore::strings_upto(k, maxpat) - 1; // without the empty pattern (a Nevec cannot be empty)
     let ntext = vcore::strings_upto(k, maxtext);
-    ctx.family(name, &format!("all patterns of length 1..={maxpat} x all texts of length 0..={maxtext} over a {k}-letter alphabet, two searches per matcher"), npat * ntext, |i, acc| {
+    ctx.family(name, &format!("all patterns of length 1..={maxpat} x all texts of length 0..={maxtext} over a {k}-letter alphabet, two searches per matcher, one from a clone and one from a serde_json round trip of the matcher"), npat * ntext, |i, acc| {
         let pat = vcore::nth_string(k, 1 + i / ntext);
         let text = vcore::nth_string(k, i % ntext);
         run_kmp(i, &pat, &text, acc);
@@ -214,10 +227,37 @@ fn main() {
         for (container, name) in [("hash", "gmap-histories-hashmap"), ("vec", "gmap-histories-vec")] {
             ctx.family(name, &format!("every history of length <= {len} over 10 actions (insert(k,v,Local|Global) for k,v in {{0,1}}, begin_group, end_group also with no group open); after every step return value, get, len, is_empty, iter; at the end drain of end_group calls and replay law (visible values and drain of the rebuilt map)"), n, |i, acc| {
                 let h: Vec<u8> = vcore::nth_string(gmap::N_ACT as u64, i).into_iter().map(|x| x as u8).collect();
-                run_gmap(container, i, &h, acc);
+                run_gmap(container, 0, i, &h, acc);
                 if i == 1_939_310 && container == "hash" {
                     // (sample indices only order the samples that are kept)
-                    acc.sample(1, || json!({"grouping_map_history": gmap::render(&h), "legend": "L/G k=v: local/global insert, { begin_group, } end_group", "checked": "end_group accepted/refused, get/len/iter after every step against the stack-of-snapshots model; drain; replay law"}));
+                    acc.sample(1, || json!({"grouping_map_history": gmap::render(&h, &gmap::A2), "legend": "L/G k=v: local/global insert, { begin_group, } end_group", "checked": "end_group accepted/refused, get/len/iter after every step against the stack-of-snapshots model; drain; replay law"}));
+                }
+            });
+        }
+    }
+    // (i-b) three keys with gaps {0,2,5}: a third key in every log, a Vec extended by 0 / 1 / several slots
+    {
+        let len = ctx.pick(6u32, 7u32);
+        let n = vcore::strings_upto(gmap::A3.n as u64, len);
+        for (container, name) in [("hash", "gmap-histories-3keys-hashmap"), ("vec", "gmap-histories-3keys-vec")] {
+            ctx.family(name, &format!("every history of length <= {len} over 14 actions (insert(k,v,Local|Global) for k in {{0,2,5}}, v in {{0,1}}, begin_group, end_group); same comparisons as the two-key family"), n, |i, acc| {
+                let h: Vec<u8> = vcore::nth_string(gmap::A3.n as u64, i).into_iter().map(|x| x as u8).collect();
+                run_gmap(container, 1, i, &h, acc);
+            });
+        }
+    }
+    // (i-c) containers created by FromIterator<(K, V)> (plain pairs), then every short history, with continuations
+    {
+        let len = ctx.pick(4u32, 5u32);
+        let per = vcore::strings_upto(gmap::N_ACT as u64, len);
+        let ni = gmap::INITS.len() as u64;
+        for (container, name) in [("hash", "gmap-from-pairs-hashmap"), ("vec", "gmap-from-pairs-vec")] {
+            ctx.family(name, &format!("container = from_iter of plain pairs {:?} (one pair; the same key twice; two keys; a key beyond the end), then every history of length <= {len} over the 10 two-key actions; replay law incl. every continuation of length <= 1", gmap::INITS), ni * per, |i, acc| {
+                let h: Vec<u8> = vcore::nth_string(gmap::N_ACT as u64, i % per).into_iter().map(|x| x as u8).collect();
+                let alpha = 2 + i / per;
+                if run_gmap(container, alpha, i, &h, acc).is_some() {
+                    run_gmap_cont(container, alpha, i, &h, 1, acc);
+                    acc.count("history_on_container_built_from_plain_pairs");
                 }
             });
         }
@@ -234,9 +274,9 @@ fn main() {
             // the frontier history h[..n-1] is the representative of a distinct state: its continuation
             // check runs once, together with the first transition out of it
             if h.last() == Some(&0) {
-                run_gmap_cont(container, u64::MAX, &h[..h.len() - 1], 2, acc);
+                run_gmap_cont(container, 0, u64::MAX, &h[..h.len() - 1], 2, acc);
             }
-            run_gmap(container, u64::MAX, h, acc)
+            run_gmap(container, 0, u64::MAX, h, acc)
         });
         ctx.extra(
             &format!("xs_{name}"),
@@ -252,20 +292,22 @@ fn main() {
             acc,
         );
     }
-    // (iii) interner
+    // (iii) interner: ASCII set and multi-byte set
     {
-        let len = ctx.pick(5u32, 6u32);
-        let n = vcore::strings_upto(intern::N_OPS, len);
-        ctx.family("interner-histories", &format!("every history of length <= {len} over get_or_intern/get x {:?}; each under RandomState and under a constant hasher, without and with a serde_json round trip before every position (incl. the end); resolve/get of everything after every step", intern::STRS), n, |i, acc| {
-            let ops = vcore::nth_string(intern::N_OPS, i);
-            run_interner(i, &ops, None, acc);
-            if i == 200_333 {
-                acc.sample(2, || json!({"interner_history": intern::render(&ops), "variants": "RandomState and constant hasher, without and with a serde round trip before every position"}));
-            }
-        });
+        for (set, name) in [(0u64, "interner-histories"), (1u64, "interner-histories-multibyte")] {
+            let len = if set == 0 { ctx.pick(5u32, 6u32) } else { ctx.pick(4u32, 5u32) };
+            let n = vcore::strings_upto(intern::N_OPS, len);
+            ctx.family(name, &format!("every history of length <= {len} over get_or_intern/get x {:?}; each under RandomState and under a constant hasher, without and with a serde_json round trip (text route and Value route) before every position (incl. the end); resolve/get of everything after every step", intern::SETS[set as usize]), n, |i, acc| {
+                let ops = vcore::nth_string(intern::N_OPS, i);
+                run_interner(i, set, &ops, None, acc);
+                if i == 20_333 && set == 1 {
+                    acc.sample(2, || json!({"interner_history": intern::render(&ops, intern::SETS[1]), "variants": "RandomState and constant hasher, without and with a serde round trip before every position"}));
+                }
+            });
+        }
     }
     // (iv) KMP
-    kmp_family(&mut ctx, "kmp-binary", 2, 5, 12);
+    kmp_family(&mut ctx, "kmp-binary", 2, 7, 13);
     let tl = ctx.pick(10, 12);
     kmp_family(&mut ctx, "kmp-ternary", 3, 4, tl);
     // nevec
@@ -291,6 +333,14 @@ fn main() {
             ("end_group_deleted_key_first_defined_in_group", "end_group removed a key that the enclosing level does not have"),
             ("global_insert_over_key_unknown_to_outermost_level", "global insert of a key that only exists inside groups"),
             ("second_local_insert_of_key_in_same_group", "the group log already holds the key"),
+            ("end_group_of_a_group_that_changed_nothing", "an empty group (or one whose inserts changed nothing) is ended"),
+            ("insert_of_the_value_every_level_already_has", "global insert that changes nothing"),
+            ("local_insert_of_the_value_that_is_already_current", "local insert of the current value"),
+            ("insert_beyond_the_end_leaving_a_gap", "key larger than every key the model holds plus one (Vec: resize, then push)"),
+            ("insert_exactly_at_the_end", "key equal to the number of slots the model accounts for (Vec: push)"),
+            ("local_insert_through_extend", "local insert performed by extend()"),
+            ("key_changed_in_two_nonadjacent_open_groups", "a key changes in open groups i and j >= i+2 and in none between"),
+            ("history_on_container_built_from_plain_pairs", "history run on a container made by FromIterator<(K,V)>"),
             ("replay_with_nonempty_group_log", "replay law on a state with a non-empty group log"),
             ("replay_continuations_checked", "continuations run on rebuilt containers"),
             ("interner_lookup_in_bucket_with_two_other_strings", "constant hasher: lookup walks a list with >= 2 other strings"),
@@ -298,9 +348,15 @@ fn main() {
             ("interner_empty_string_interned_after_others", "the empty string gets a key when the buffer is not empty"),
             ("interner_existing_string_after_deserialise", "dedup map rebuilt by deserialisation finds an old string"),
             ("interner_new_string_after_deserialise", "a new string is interned into a deserialised interner"),
+            ("interner_multibyte_string_interned_at_nonzero_offset", "a string with multi-byte characters starts inside the buffer"),
+            ("interner_string_interned_after_a_multibyte_string", "byte offsets and character counts of the buffer differ when a string is added"),
             ("kmp_pattern_has_border", "the pattern has a proper prefix that is also a suffix"),
             ("kmp_overlapping_matches", "two occurrences overlap"),
             ("kmp_disjoint_repeated_matches", "two occurrences do not overlap"),
+            ("kmp_overlap_by_two_or_more", "two occurrences share >= 2 elements"),
+            ("kmp_prefix_function_needs_two_fallback_steps", "building the prefix function falls back twice at one position"),
+            ("kmp_search_needs_two_fallback_steps", "one text element makes the search fall back twice"),
+            ("kmp_text_is_exactly_the_pattern", "text == pattern"),
             ("nevec_pop_from_tail_on_single_element", "pop_from_tail on a one-element vector"),
         ] {
             ctx.require(c, m);
@@ -369,17 +425,17 @@ fn replay(case: &Value, acc: &mut Acc) {
         Some("gmap") => {
             let h: Vec<u8> = u64s(&case["h"]).into_iter().map(|x| x as u8).collect();
             let container = case["container"].as_str().unwrap_or("hash").to_string();
-            run_gmap(&container, 0, &h, acc);
+            run_gmap(&container, case["alpha"].as_u64().unwrap_or(0), 0, &h, acc);
         }
         Some("gmap-cont") => {
             let h: Vec<u8> = u64s(&case["h"]).into_iter().map(|x| x as u8).collect();
             let container = case["container"].as_str().unwrap_or("hash").to_string();
-            run_gmap_cont(&container, 0, &h, case["cont"].as_u64().unwrap_or(2) as usize, acc);
+            run_gmap_cont(&container, case["alpha"].as_u64().unwrap_or(0), 0, &h, case["cont"].as_u64().unwrap_or(2) as usize, acc);
         }
         Some("interner") => {
             let ops = u64s(&case["ops"]);
-            let only = (case["constant_hasher"] == true, case["serde_at"].as_u64().map(|x| x as usize));
-            run_interner(0, &ops, Some(only), acc);
+            let only = (case["constant_hasher"] == true, case["serde_at"].as_u64().map(|x| x as usize), case["serde_via_value"] == true);
+            run_interner(0, case["set"].as_u64().unwrap_or(0), &ops, Some(only), acc);
         }
         Some("kmp") => run_kmp(0, &u64s(&case["pat"]), &u64s(&case["text"]), acc),
         Some("nevec") => run_nevec(0, case["ctor"].as_u64().unwrap_or(0), &u64s(&case["ops"]), acc),
